@@ -86,20 +86,23 @@ type G struct {
 	X     *netctl.Exec
 	C     *kfake.Cluster
 	Proto Proto
-	// RevokeWork is the virtual time a revoke/lost callback spends between its
-	// START and END stamps (the application "finishing its work").
+	// RevokeWork is the virtual time a revoke/lost callback that names at
+	// least one partition spends between its START and END stamps (the
+	// application "finishing its work" on what it loses).
 	RevokeWork time.Duration
 
-	mu      sync.Mutex
-	seq     int64
-	cbs     []CB
-	polls   []*Poll
-	commits []Commit
-	clients map[string]*kgo.Client
-	subs    map[string]map[string]bool // live member -> subscribed topics
-	id2t    map[[16]byte]string
-	notify  chan struct{} // closed and replaced at every log append
-	quit    chan struct{} // closed at cleanup: gates give up, scripts end
+	mu       sync.Mutex
+	seq      int64
+	cbs      []CB
+	polls    []*Poll
+	commits  []Commit
+	clients  map[string]*kgo.Client
+	subs     map[string]map[string]bool // live member -> subscribed topics
+	id2t     map[[16]byte]string
+	notify   chan struct{} // closed and replaced at every log append
+	quit     chan struct{} // closed at cleanup: gates give up, scripts end
+	quitOnce sync.Once
+	canon    canon
 }
 
 // ClusterOpts are the kfake options of the family.
@@ -128,13 +131,67 @@ func New(x *netctl.Exec, proto Proto, topics map[string]int32) *G {
 	g := &G{X: x, Proto: proto, clients: map[string]*kgo.Client{}, subs: map[string]map[string]bool{}, id2t: map[[16]byte]string{}, notify: make(chan struct{})}
 	g.C = x.Cluster(1, ClusterOpts(topics)...)
 	g.quit = make(chan struct{})
-	x.OnCleanup(func() { close(g.quit) }) // registered after the cluster's Close, so it runs before it
+	x.OnCleanup(g.shutdown) // cleanups run LIFO: before the cluster's Close
 	for t := range topics {
 		if ti := g.C.TopicInfo(t); ti != nil {
 			g.id2t[ti.TopicID] = t
 		}
 	}
 	return g
+}
+
+type abortThread struct{}
+
+// shutdown ends the scripts: gates give up and every later script action
+// aborts its thread. It is (re-)registered as the LAST cleanup whenever a
+// member is created, so it runs before any client or the cluster is closed
+// (a diverged execution skips Final and goes to cleanup with threads alive).
+func (g *G) shutdown() { g.quitOnce.Do(func() { close(g.quit) }) }
+
+func (g *G) dead() bool {
+	select {
+	case <-g.quit:
+		return true
+	default:
+		return false
+	}
+}
+
+func (g *G) checkAlive() {
+	if g.dead() {
+		panic(abortThread{})
+	}
+}
+
+// Thread starts a scripted thread whose script is abandoned at the first
+// action after cleanup began.
+func (g *G) Thread(name string, body func(t *netctl.Thread)) {
+	g.X.Thread(name, func(t *netctl.Thread) {
+		defer func() {
+			if r := recover(); r != nil {
+				if _, ok := r.(abortThread); !ok {
+					panic(r)
+				}
+			}
+		}()
+		body(t)
+	})
+}
+
+// Step is t.Step followed by the liveness check.
+func (g *G) Step(t *netctl.Thread, label string) {
+	g.checkAlive()
+	t.Step(label)
+	g.checkAlive()
+}
+
+// Sleep is a virtual sleep inside a script action.
+func (g *G) Sleep(d time.Duration) {
+	select {
+	case <-time.After(d):
+	case <-g.quit:
+	}
+	g.checkAlive()
 }
 
 // stamp returns the next sequence number and wakes WaitUntil callers; g.mu held.
@@ -218,7 +275,7 @@ func (g *G) callback(member, kind string, work time.Duration) func(context.Conte
 		g.cbs = append(g.cbs, CB{Seq: g.stamp(), Member: member, Kind: kind, Parts: parts})
 		g.mu.Unlock()
 		g.X.Logf("callback %s %s START %v", member, kind, parts)
-		if work > 0 {
+		if work > 0 && len(parts) > 0 {
 			time.Sleep(work)
 		}
 		g.mu.Lock()
@@ -229,13 +286,25 @@ func (g *G) callback(member, kind string, work time.Duration) func(context.Conte
 }
 
 // MemberOpts are the group options shared by every member of the family.
-func (g *G) MemberOpts(topics []string) []kgo.Opt {
+func (g *G) MemberOpts(name string, topics []string) []kgo.Opt {
+	// Members that finish a rebalance at the same virtual instant would
+	// heartbeat at the same instants for ever after, and the firing order of
+	// tied timers is the Go runtime's, not the explorer's: give every member
+	// its own period (classic protocol; in 848 the broker dictates 1 s and the
+	// members' phases differ by their join offsets).
+	hb := time.Second
+	switch name[0] {
+	case 'B':
+		hb = 1130 * time.Millisecond
+	case 'C':
+		hb = 1270 * time.Millisecond
+	}
 	opts := []kgo.Opt{
 		kgo.ConsumerGroup(Group),
 		kgo.ConsumeTopics(topics...),
 		kgo.SessionTimeout(LongTimeout),
 		kgo.RebalanceTimeout(LongTimeout),
-		kgo.HeartbeatInterval(time.Second),
+		kgo.HeartbeatInterval(hb),
 		// Graceful family: a request parked in the proxy across a tick must
 		// never be given up by the client.
 		kgo.RequestTimeoutOverhead(LongTimeout),
@@ -257,7 +326,7 @@ func (g *G) MemberOpts(topics []string) []kgo.Opt {
 // callbacks are replaced by stamping ones (C07); without, the client keeps its
 // default revoke behaviour (C08).
 func (g *G) Join(name string, callbacks bool, topics []string, extra ...kgo.Opt) *kgo.Client {
-	opts := g.MemberOpts(topics)
+	opts := g.MemberOpts(name, topics)
 	if callbacks {
 		opts = append(opts,
 			kgo.OnPartitionsAssigned(g.callback(name, "assigned", 0)),
@@ -267,7 +336,12 @@ func (g *G) Join(name string, callbacks bool, topics []string, extra ...kgo.Opt)
 	}
 	opts = append(opts, extra...)
 	g.mu.Lock() // serialises x.OnCleanup inside NewClient between threads
+	if g.dead() {
+		g.mu.Unlock()
+		panic(abortThread{})
+	}
 	cl := nscen.NewClient(g.X, name, g.C, opts...)
+	g.X.OnCleanup(g.shutdown)
 	g.clients[name] = cl
 	s := map[string]bool{}
 	for _, t := range topics {
@@ -317,6 +391,7 @@ func (g *G) Live() []string {
 // PollOnce calls PollRecords(ctx, max) with a virtual timeout and stamps
 // start and return around it.
 func (g *G) PollOnce(member string, cl *kgo.Client, max int, timeout time.Duration) *Poll {
+	g.checkAlive()
 	p := &Poll{Member: member}
 	g.mu.Lock()
 	p.Start = g.stamp()
